@@ -636,7 +636,7 @@ seqspec('ClockDivider', lambda tier: prod(n=[1, 2, 3, 5], r=[False, True]), b_cl
 
 
 def b_stepcounter(D, p):
-    reset, inc, step, q = D.wire('reset'), D.wire('inc'), D.wire('step', p['w']), D.wire('q', p['w'])
+    reset, inc, step, q = D.wire('reset'), D.wire('inc'), D.wire('step', p.get('sw', p['w'])), D.wire('q', p['w'])
     D.make('StepUpCounter', 'dut', reset, inc, step, q)
     return dict(reset=reset, inc=inc, step=step), dict(q=q)
 
@@ -655,7 +655,8 @@ class StepCounterModel(Model):
             self.q = (self.q + v['step']) & m(self.p['w'])
 
 
-seqspec('StepUpCounter', lambda tier: prod(w=[2, 3]), b_stepcounter, StepCounterModel)
+seqspec('StepUpCounter', lambda tier: [dict(w=2), dict(w=3), dict(w=3, sw=2), dict(w=3, sw=1), dict(w=2, sw=3)] + ([dict(w=4, sw=2), dict(w=4, sw=3)] if tier == 'thorough' else []),
+        b_stepcounter, StepCounterModel, note='step narrower / wider than the count: the step is an unsigned number')
 
 
 def b_delay(D, p):
